@@ -692,3 +692,86 @@ def compare(impl, model, funcs, want_events=True):
                     dis.append((f, i))
                     break
     return dis
+
+
+# ------------------------------------------------------------------ hand-written sheets (corpus, finding witnesses)
+def mk_sheet(spec):
+    """Builds (text, items) from a nested description, recording the same ground truth as
+    the random generator.  spec: list of
+        'raw text'                               white space / comments between items
+        ('rule', selector, gap, [spec...])       selector text, text between selector and `{`
+        ('decl', name, pre, post, [(sep, atom), ...], tail, terminated)
+                                                 name, text before `:`, text after `:`,
+                                                 value atoms each preceded by sep, text
+                                                 before the terminator, `;` present or not
+    The selector range ends where its text ends (put trailing comments into `gap`)."""
+    o = Out()
+    items = _mk_items(o, spec)
+    return o.text(), items
+
+
+def _mk_items(o, spec):
+    items = []
+    for it in spec:
+        if isinstance(it, str):
+            o.w(it)
+        elif it[0] == 'rule':
+            _, sel, gap, children = it
+            r = {'t': 'rule', 'start': o.pos}
+            o.w(sel)
+            r['sel_end'] = o.pos
+            o.w(gap)
+            r['brace'] = o.pos
+            o.w('{')
+            r['children'] = _mk_items(o, children)
+            r['close'] = o.pos
+            o.w('}')
+            r['end'] = o.pos
+            items.append(r)
+        else:
+            _, name, pre, post, atoms, tail, term = it
+            d = {'t': 'decl', 'start': o.pos}
+            o.w(name)
+            d['name_end'] = o.pos
+            o.w(pre)
+            d['colon'] = o.pos
+            o.w(':')
+            o.w(post)
+            toks = []
+            for sep, atom in atoms:
+                o.w(sep)
+                a = o.pos
+                o.w(atom)
+                toks.append([a, o.pos])
+            d['vstart'], d['vend'], d['tokens'] = toks[0][0], toks[-1][1], toks
+            o.w(tail)
+            if term:
+                d['semi'] = o.pos
+                o.w(';')
+                d['end'] = o.pos
+            else:
+                d['semi'] = None
+                d['end'] = d['vend']
+            items.append(d)
+    return items
+
+
+# ------------------------------------------------------------------ running documents through the implementation
+def _impl_worker(args):
+    s, funcs = args
+    return impl_doc(s, funcs)
+
+
+def impl_docs(texts, funcs, procs=1):
+    """impl_doc for every text; in worker processes when procs > 1 (the generation of the
+    inputs stays in the parent, so the run is reproducible from the seed)."""
+    if procs <= 1 or len(texts) < 8:
+        return [impl_doc(s, funcs) for s in texts]
+    import multiprocessing
+    with multiprocessing.get_context('fork').Pool(procs) as pool:
+        return pool.map(_impl_worker, [(s, funcs) for s in texts], chunksize=max(1, len(texts) // (procs * 8)))
+
+
+def short(s, n=120):
+    s = repr(s)
+    return s if len(s) <= n else s[:n] + '...'
